@@ -555,6 +555,10 @@ class FastSimulation(object):
         self.mems = {}
         self.regs = {}
         self.internal_names = _PythonSanitizer('_fastsim_tmp_')
+        # the generated function has local variables of its own: a wire must not take their names
+        _is_python_name = self.internal_names.extra_checks
+        self.internal_names.extra_checks = \
+            lambda s: _is_python_name(s) and s not in ('d', 'regs', 'outs', 'mem_ws')
         self._initialize(register_value_map, memory_value_map)
 
     def _initialize(self, register_value_map={}, memory_value_map={}):
